@@ -78,6 +78,21 @@ def handleGen (op : String) (j : Json) : Except String Json := do
         (← getBool j "add_undefined") ⟨← rows "embed", ← rows "density"⟩ () () with
     | .ok l => return arrJ (l.map fun e => arrJ [Json.str e.species, intJ e.atomicNumber, ratJ e.mass, ratJ e.latticeConstant, Json.str e.latticeType, natJ e.embed.fid, natJ e.dens.fid])
     | .error e => return Json.str (match e with | .speciesMismatch => "speciesMismatch" | .noMass => "noMass" | .noAtomicNumber => "noAtomicNumber" | .keyError => "keyError")
+  | "modifiers" =>
+    -- sum / product / pow of _modifiers.py on constant callables: a callable is its (natural) value, the combinators are + * ^ on values
+    let ids ← (← getArr j "ids").mapM fun x => x.getNat?
+    let forms : List Pfi := ids.map fun i => ⟨i⟩
+    let mk := fun (p : Pfi) => (⟨p.id⟩ : FnObj2)
+    let r := match (← getStr j "which") with
+      | "sum" => modifier_sum mk (fun a b => ⟨a.id + b.id⟩) forms ()
+      | "product" => modifier_product mk (fun a b => ⟨a.id * b.id⟩) forms ()
+      | _ => modifier_pow mk (fun a b => ⟨a.id ^ b.id⟩) forms ()
+    return match r with | .ok v => natJ v.id | .error _ => Json.str "noArguments"
+  | "register_each_other" =>
+    -- Potential_Form_Registry._register_with_each_other on n forms (ids 0..n-1): the calls a.register_function(b) as [a, b], in order
+    let n ← getNat j "n"
+    let forms : List (String × FormObj) := (List.range n).map fun i => (toString i, ⟨i⟩)
+    return arrJ ((register_with_each_other (fun f => ⟨f.id⟩) forms []).map fun p => arrJ [natJ p.1.id, natJ p.2.id])
   | "tab_write" =>
     -- the `write` methods of the tabulation objects; answer: the tokens (or "raised") and the number of chunks the destination-mode twin hands the destination
     let which ← getStr j "which"
